@@ -9,7 +9,7 @@ the specification's text, a second program loads the file with the matching opti
 with the same program-text facts inside Datalog (equality joins, only counts are printed, so no writer is involved in
 observing the reader).  Representable tuples must round-trip; tuples the specification calls unrepresentable are not
 judged (outcome classes are counted as observations)."""
-import concurrent.futures as cf, json, os, random, shutil
+import concurrent.futures as cf, json, os, random, re, shutil
 from .. import build, iofmt as io, known, tlc
 from ..common import SPEC, NCPU, Result, workdir, seed, log, VERIF
 from ..evidence import finish
@@ -193,27 +193,38 @@ def single(fmt, v, d, basetext):
     return o, files, sd
 
 def group_job(fmt, vecs, d, basetext):
-    """Batch: all vectors of one (format, shape) written by one program; the representable ones read back by one program.
-    Returns {id: (outcome, files, dir)}; anything that is not a clean batch pass is re-run on its own."""
+    """Batch: the representable vectors of one (format, shape) are written by one program (one relation and one file
+    each) and read back by one program.  A relation whose loading fails loudly is taken out and the rest re-read;
+    every vector that is not a clean batch pass is afterwards re-run on its own (todo)."""
     out = {}
     rep = [v for v in vecs if v["rep"]]
     todo = [v for v in vecs if not v["rep"]]
-    wp, w = do_write(fmt, rep, d, "batch") if rep else (None, None)
-    clean = False
-    if w is not None and w.kind == "ok":
-        rp, r, cmp = do_read(fmt, rep, d, "batch")
+    if not rep:
+        return out, todo
+    wp, w = do_write(fmt, rep, d, "batch")
+    if w.kind != "ok":
+        return out, todo + rep
+    cur = list(rep)
+    for rnd in range(60):
+        if not cur:
+            break
+        rp, r, cmp = do_read(fmt, cur, d, "batch%d" % rnd)
         if r.kind == "ok" and cmp is not None:
-            clean = True
-            for v in rep:
+            for v in cur:
                 o = {"write": "ok", "read": "ok", "cmp": cmp.get(v["id"]), "batch": True}
                 observe_bytes(fmt, v, d, o, basetext)
                 if o["cmp"] == (0, 0):
                     out[v["id"]] = (o, {"write": wp, "read": rp}, d)
                 else:
                     todo.append(v)
-    if not clean:
-        todo += rep
-    return out, todo
+            cur = []
+            break
+        m = re.search(r"Error loading w(\d+) data", r.err)
+        bad = [v for v in cur if m and v["id"] == int(m.group(1))]
+        if r.kind != "error" or not bad:
+            break
+        todo.append(bad[0]); cur.remove(bad[0])
+    return out, todo + cur
 
 def run(tier, replay=None):
     res = Result(PID, tier)
@@ -272,7 +283,7 @@ def run(tier, replay=None):
         # phase 2: everything else on its own (unrepresentable tuples: a seeded sample in the quick tier)
         unrep = [s for s in singles if not s[1]["rep"]]
         repl = [s for s in singles if s[1]["rep"]]
-        cap = 1500 if tier == "quick" else len(unrep)
+        cap = 600 if tier == "quick" else len(unrep)
         if len(unrep) > cap:
             unrep = rng.sample(unrep, cap)
         res.cov["unrepresentable_run"] = len(unrep)
